@@ -26,7 +26,15 @@ def run(cls, path):
         st.prepare(harness, chk)
     if hasattr(st, "from_replay"):
         case = st.from_replay(case)
-    obs = C.harness_call(harness, st.sub, [st.go_case(case)])
+    prev = rp.get("previous_inputs")
+    if prev:
+        # history-dependent stream: the recorded preceding calls first, in the same harness process
+        pcs = list(prev)                      # recorded exactly as the harness process saw them
+        both = C.harness_call(harness, st.sub, pcs + [rp["input"]])
+        print("after %d preceding calls of the recorded history" % len(pcs))
+        obs = both[-1:]
+    else:
+        obs = C.harness_call(harness, st.sub, [st.go_case(case)])
     print("input:    ", json.dumps(st.go_case(case))[:2000])
     print("observed: ", json.dumps(obs[0])[:2000])
     msg = st.direct_check(case, obs[0])
